@@ -411,6 +411,8 @@ impl Property for Valid {
         let mut spec = gen_broad(t, &opts);
         // hidden things
         fn sprinkle(c: &mut CmdSpec, t: &mut Tape<'_>) {
+            // (a subcommand name after values of a still-collecting positional is only a subcommand with this setting)
+            c.settings.subcommand_precedence_over_arg = t.chance(1, 5);
             for a in &mut c.args {
                 a.hide = t.chance(1, 6);
                 a.required = false;
@@ -442,7 +444,31 @@ impl Property for Valid {
                     }
                 }
             }
-            if level.subs.is_empty() || t.chance(1, 3) {
+            let descend = !(level.subs.is_empty() || t.chance(1, 3));
+            // values for the first positional: a single-value one is simply filled; a multi-value one keeps collecting,
+            // so the line only goes on to a subcommand where subcommands take precedence
+            if let Some(p0) = level.args.iter().find(|a| a.is_positional() && !a.last && a.index.is_none()) {
+                let multi = p0.value_range().1 > 1 || p0.action == vmodel::Action::Append;
+                let plain = |t: &mut Tape<'_>| {
+                    let v = vmodel::gen::good_value(t, &p0.parser);
+                    if v.starts_with('-') || level.subs.iter().any(|s| s.all_names().contains(&v)) || v == "help" {
+                        "v9".to_owned()
+                    } else {
+                        v
+                    }
+                };
+                let typed_ok = matches!(p0.parser, vmodel::ParserSpec::Str | vmodel::ParserSpec::OsStr | vmodel::ParserSpec::PathBuf);
+                if typed_ok && p0.value_terminator.is_none() && p0.value_delimiter.is_none() {
+                    if !multi && t.chance(1, 4) {
+                        prefix.push(plain(t));
+                    } else if multi && descend && level.settings.subcommand_precedence_over_arg && t.chance(1, 2) {
+                        for _ in 0..t.range(1, 2) {
+                            prefix.push(plain(t));
+                        }
+                    }
+                }
+            }
+            if !descend {
                 break;
             }
             let sc = &level.subs[t.choose(level.subs.len())];
